@@ -2,6 +2,7 @@
 from __future__ import annotations
 
 from abc import ABC, abstractmethod
+from copy import copy
 from datetime import datetime
 from enum import IntEnum
 from struct import unpack
@@ -583,7 +584,8 @@ class EcoModeV1(Sensor, EcoMode):
             raise ValueError(f"{self.id_}: on_off value {self.on_off} out of range.")
         self.day_bits = read_byte(data)
         self.days = decode_day_of_week(self.day_bits)
-        return self
+        # answer a copy: the definition object is reused for every read and must not alias returned values
+        return copy(self)
 
     def encode_value(self, value: Any, register_value: bytes = None) -> bytes:
         if isinstance(value, bytes) and len(value) == 8:
@@ -704,7 +706,8 @@ class Schedule(Sensor, EcoMode):
             raise ValueError(f"{self.id_}: SoC value {self.soc} out of range.")
         self.month_bits = read_bytes2_signed(data)
         self.months = decode_months(self.month_bits)
-        return self
+        # answer a copy: the definition object is reused for every read and must not alias returned values
+        return copy(self)
 
     def encode_value(self, value: Any, register_value: bytes = None) -> bytes:
         if isinstance(value, bytes) and len(value) == 12:
